@@ -1,0 +1,27 @@
+//go:build verif
+
+package util
+
+import gotime "time"
+
+// VerifRepeatInterval, if non-zero, replaces the tick interval of WithRepeat.
+// VerifRepeatStop, if set, is asked before every iteration (with the number of
+// iterations completed so far) whether the otherwise endless loop should end.
+// Both exist only in builds with the `verif` tag, so that a verification
+// harness can drive a finite number of ticks without waiting in real time.
+var VerifRepeatInterval gotime.Duration
+var VerifRepeatStop func(iterationsDone int64) bool
+
+func verifRepeatInterval(interval gotime.Duration) gotime.Duration {
+	if VerifRepeatInterval > 0 {
+		return VerifRepeatInterval
+	}
+	return interval
+}
+
+func verifRepeatStop(iterationsDone int64) bool {
+	if VerifRepeatStop != nil {
+		return VerifRepeatStop(iterationsDone)
+	}
+	return false
+}
